@@ -43,6 +43,8 @@ class Model:
     def __init__(self):
         self.gextra = None
         self.tpls = []
+        self.graphics = False    # XML only: coordinates on elements, nails (ignored by the reader, must not disturb anything)
+        self.layout = 0          # 0 plain label texts, 1 comments around them, 2 blank lines and blanks around them
         self.insts = []      # (name, formal params [(kind,name)], template/instance name, [args])   args: ("k", K) / ("v", varname)
         self.procs = []      # names
         self.prio = []       # separators between consecutive processes: "," or "<"
@@ -131,6 +133,15 @@ def t_arg(a):
     return (str(a[1]), "(CONSTANT:INT %d)" % a[1]) if a[0] == "k" else (a[1], "(IDENTIFIER %s)" % a[1])
 
 
+def lay(m, text):
+    """the label text in the model's layout variant (same tokens)"""
+    if text is None or m.layout == 0:
+        return text
+    if m.layout == 1:
+        return "// leading comment\n" + text + " /* trailing */"
+    return "\n  \t" + text + "  \n\n"
+
+
 # ---- renderings ---------------------------------------------------------------------------------------
 def node_id(t, n):
     return t.locs[n[1]].lid if n[0] == "L" else t.bps[n[1]]
@@ -143,23 +154,31 @@ def node_sym(t, n):
 def render_xml(m, queries=None):
     tpls = []
     for t in m.tpls:
-        locs = [X.location(l.lid, l.name, inv=t_inv(l.inv, l.invstyle)[0] if l.inv is not None else None,
-                           rate=t_rate(l.rate)[0] if l.rate is not None else None,
+        locs = [X.location(l.lid, l.name, inv=lay(m, t_inv(l.inv, l.invstyle)[0]) if l.inv is not None else None,
+                           rate=lay(m, t_rate(l.rate)[0]) if l.rate is not None else None,
                            urgent=l.kind == "U", committed=l.kind == "C", rate_first=l.rate_first) for l in t.locs]
         trs = []
         for e in t.edges:
             trs.append(X.transition(node_id(t, e.src), node_id(t, e.dst),
-                                    select=t_select(e.select, e.selstyle)[0] if e.select is not None else None,
-                                    guard=t_guard(e.guard, e.guardstyle)[0] if e.guard is not None else None,
-                                    sync=e.sync,
-                                    assign=t_assign(e.assign, e.select is not None, e.selstyle)[0] if e.assign is not None else None,
-                                    prob=t_prob(e.prob)[0] if e.prob is not None else None,
+                                    select=lay(m, t_select(e.select, e.selstyle)[0]) if e.select is not None else None,
+                                    guard=lay(m, t_guard(e.guard, e.guardstyle)[0]) if e.guard is not None else None,
+                                    sync=lay(m, e.sync),
+                                    assign=lay(m, t_assign(e.assign, e.select is not None, e.selstyle)[0]) if e.assign is not None else None,
+                                    prob=lay(m, t_prob(e.prob)[0]) if e.prob is not None else None,
                                     controllable=e.ctrl, order=ORDERS[e.order]))
         tpls.append(X.template(t.name, params=params_text(t.params) if t.params else None,
                                decl=((("int l1 = %d;" % t.locals) if t.locals is not None else "") + t.xdecl) or None,
                                locations=locs, branchpoints=t.bps, init=t.locs[t.init].lid if t.locs else None,
                                transitions=trs))
-    return X.nta(GDECL + (" int gextra = %d;" % m.gextra if m.gextra is not None else ""), tpls, system_text(m), queries)
+    doc = X.nta(GDECL + (" int gextra = %d;" % m.gextra if m.gextra is not None else ""), tpls, system_text(m), queries)
+    if m.graphics:
+        import re
+        doc = re.sub(r'<location id="([^"]*)">', r'<location id="\1" x="-30" y="40" color="#ff0000">', doc)
+        doc = re.sub(r'<branchpoint id="([^"]*)"/>', r'<branchpoint id="\1" x="7" y="8"/>', doc)
+        doc = re.sub(r'<label kind="([^"]*)">', r'<label kind="\1" x="1" y="-2">', doc)
+        doc = doc.replace("</transition>", '<nail x="3" y="4"/><nail x="5" y="6"/></transition>')
+        doc = re.sub(r'(<location [^>]*>)<name>', r'\1<name x="9" y="9">', doc)
+    return doc
 
 
 def system_text(m):
@@ -207,13 +226,13 @@ def render_xta(m, chain=True):
             for e in t.edges:
                 body = ""
                 if e.select is not None:
-                    body += " select %s;" % t_select(e.select, e.selstyle)[0]
+                    body += " select %s;" % lay(m, t_select(e.select, e.selstyle)[0])
                 if e.guard is not None:
-                    body += " guard %s;" % t_guard(e.guard, e.guardstyle)[0]
+                    body += " guard %s;" % lay(m, t_guard(e.guard, e.guardstyle)[0])
                 if e.sync is not None:
                     body += " sync %s;" % e.sync
                 if e.assign is not None:
-                    body += " assign %s;" % t_assign(e.assign, e.select is not None, e.selstyle)[0]
+                    body += " assign %s;" % lay(m, t_assign(e.assign, e.select is not None, e.selstyle)[0])
                 if e.prob is not None:
                     body += " probability %s;" % t_prob(e.prob)[0]
                 prev = t.edges[t.edges.index(e) - 1] if t.edges.index(e) > 0 else None
@@ -374,9 +393,20 @@ def build(choose, common=False, bp_base=True):
     m = Model()
     ids = [0]
 
+    idstyle = choose(3, "idstyle")
+
     def nid():
         ids[0] += 1
-        return "id%d" % (ids[0] - 1)
+        n = ids[0] - 1
+        if idstyle == 1:
+            return "id%d" % (40 - n)          # descending: document order is not id order, "id9" < "id10" only numerically
+        if idstyle == 2:
+            return "n_" + "abcdefghijklmnopqrstuvwxyz"[n]
+        return "id%d" % n
+
+    shortnames = bool(choose(2, "locnames"))
+    m.graphics = bool(choose(2, "graphics")) if not common else False
+    m.layout = choose(3, "labellayout")
 
     m.gextra = [None, 951][choose(2, "gextra")]
     nt = [2, 1, 3][choose(3, "ntemplates")]
@@ -423,7 +453,7 @@ def build(choose, common=False, bp_base=True):
                 if l.kind:
                     l.inv = None
                     l.rate = None
-            l.name = ("%s_L%d" % (t.name, li)) if named else None
+            l.name = (("L%d" % li) if shortnames else ("%s_L%d" % (t.name, li))) if named else None
             t.locs.append(l)
         if ti == 0:
             nb = ([1, 0, 2] if bp_base else [0, 1, 2])[choose(3, "T1.nbps")]
